@@ -51,3 +51,48 @@ package tuf
 //@ func ext:(internal/tuf.GitHubApp).IsTrusted -> (b)
 //@   trusted
 //@   pure
+
+//@ # ---- C02 / C06: metadata objects read by the policy code are treated as immutable values ----
+//@ # (what a decoded root / rule file / rule answers is a function of the object; the policy code never edits the
+//@ # objects it reads for verification)
+//@ spec rmVersion(r RootMetadata) uint64
+//@ spec rmRootOK(r RootMetadata) bool
+//@ spec rmRootPrincipals(r RootMetadata) []Principal
+//@ spec rmRootThreshold(r RootMetadata) int
+//@ spec rmTargetsOK(r RootMetadata) bool
+//@ spec rmTargetsPrincipals(r RootMetadata) []Principal
+//@ spec rmTargetsThreshold(r RootMetadata) int
+//@ define noNilPs(ps []Principal) bool = forall i :: 0 <= i && i < len(ps) ==> notNil(ps[i])
+
+//@ func ext:(internal/tuf.RootMetadata).GetVersion -> (n)
+//@   trusted
+//@   pure
+//@   ensures n == rmVersion(self)
+//@ func ext:(internal/tuf.RootMetadata).GetRootPrincipals -> (ps, err)
+//@   trusted
+//@   pure
+//@   ensures (err == nil) == rmRootOK(self)
+//@   # A-wfmeta: every principal a role names is defined in the metadata (C13 proves the editors keep this; metadata read from disk is assumed so)
+//@   ensures err == nil ==> ps == rmRootPrincipals(self) && noNilPs(ps)
+//@ func ext:(internal/tuf.RootMetadata).GetRootThreshold -> (n, err)
+//@   trusted
+//@   pure
+//@   ensures (err == nil) == rmRootOK(self)
+//@   ensures err == nil ==> n == rmRootThreshold(self)
+//@ func ext:(internal/tuf.RootMetadata).GetPrimaryRuleFilePrincipals -> (ps, err)
+//@   trusted
+//@   pure
+//@   ensures (err == nil) == rmTargetsOK(self)
+//@   ensures err == nil ==> ps == rmTargetsPrincipals(self) && noNilPs(ps)
+//@ func ext:(internal/tuf.RootMetadata).GetPrimaryRuleFileThreshold -> (n, err)
+//@   trusted
+//@   pure
+//@   ensures (err == nil) == rmTargetsOK(self)
+//@   ensures err == nil ==> n == rmTargetsThreshold(self)
+
+//@ spec tmVersion(t TargetsMetadata) uint64
+//@ spec tmRules(t TargetsMetadata) []Rule
+//@ func ext:(internal/tuf.TargetsMetadata).GetVersion -> (n)
+//@   trusted
+//@   pure
+//@   ensures n == tmVersion(self)
